@@ -44,11 +44,15 @@ theorem prefix_stable (o : Opts) (b x : Bytes) (f : Frame) (r : Bytes)
         obtain ⟨size, r2⟩ := p
         rw [readU32_append x hr]
         simp only [hr] at h
+        dsimp only
+        by_cases hbig : o.early = true ∧ o.maxMsg > 0 ∧ size > o.maxMsg
+        · rw [if_pos hbig] at h; simp at h
+        rw [if_neg hbig] at h
+        rw [if_neg hbig]
         by_cases hs : (t0 :: t1 :: t2 :: t3 :: r').length ≥ size
         · have hs' : (t0 :: t1 :: t2 :: t3 :: (r' ++ x)).length ≥ size := by
             simp at hs ⊢; omega
           rw [if_pos hs] at h
-          dsimp only
           rw [if_pos hs']
           have e1 : (t0 :: t1 :: t2 :: t3 :: (r' ++ x)).take size = (t0 :: t1 :: t2 :: t3 :: r').take size := by
             have : t0 :: t1 :: t2 :: t3 :: (r' ++ x) = (t0 :: t1 :: t2 :: t3 :: r') ++ x := by simp
@@ -84,11 +88,15 @@ theorem error_stable (o : Opts) (b x : Bytes)
         obtain ⟨size, r2⟩ := p
         rw [readU32_append x hr]
         simp only [hr] at h
+        dsimp only
+        by_cases hbig : o.early = true ∧ o.maxMsg > 0 ∧ size > o.maxMsg
+        · rw [if_pos hbig]
+        rw [if_neg hbig] at h
+        rw [if_neg hbig]
         by_cases hs : (t0 :: t1 :: t2 :: t3 :: r').length ≥ size
         · have hs' : (t0 :: t1 :: t2 :: t3 :: (r' ++ x)).length ≥ size := by
             simp at hs ⊢; omega
           rw [if_pos hs] at h
-          dsimp only
           rw [if_pos hs']
           have e1 : (t0 :: t1 :: t2 :: t3 :: (r' ++ x)).take size = (t0 :: t1 :: t2 :: t3 :: r').take size := by
             have : t0 :: t1 :: t2 :: t3 :: (r' ++ x) = (t0 :: t1 :: t2 :: t3 :: r') ++ x := by simp
@@ -113,6 +121,9 @@ theorem frame_lt (o : Opts) (b : Bytes) (f : Frame) (r : Bytes)
       | some p =>
         obtain ⟨size, r2⟩ := p
         simp only [hr] at h
+        by_cases hbig : o.early = true ∧ o.maxMsg > 0 ∧ size > o.maxMsg
+        · rw [if_pos hbig] at h; simp at h
+        rw [if_neg hbig] at h
         by_cases hs : (t0 :: t1 :: t2 :: t3 :: r').length ≥ size
         · rw [if_pos hs] at h
           cases hp : parse o (mtype t0 t1 t2 t3) ((t0 :: t1 :: t2 :: t3 :: r').take size) with
@@ -826,18 +837,18 @@ theorem sendbuffer_complete (c : Chan) (cl : Bool) (bs mm mc : Nat) (hbs : 0 < b
 /-! ### non-vacuity -/
 
 /-- an ACK frame followed by one more byte decodes (hypothesis of `prefix_stable`) -/
-example : decodeStep ⟨0, 100⟩ ([65, 67, 75, 70, 28, 0, 0, 0] ++ List.replicate 20 7 ++ [9])
+example : decodeStep ⟨0, 100, true⟩ ([65, 67, 75, 70, 28, 0, 0, 0] ++ List.replicate 20 7 ++ [9])
     = .frame (.ack 117901063 117901063 117901063 117901063 117901063) [9] := by decide
 
 /-- a frame with an unknown type errors once it is complete (hypothesis of `error_stable`) -/
-example : decodeStep ⟨0, 100⟩ [88, 88, 88, 70, 9, 0, 0, 0, 1] = .error := by decide
+example : decodeStep ⟨0, 100, true⟩ [88, 88, 88, 70, 9, 0, 0, 0, 1] = .error := by decide
 
 /-- a declared size beyond the limit is an error once the bytes are there -/
-example : decodeStep ⟨16, 100⟩ ([77, 83, 71, 70, 17, 0, 0, 0] ++ List.replicate 9 0) = .error := by decide
+example : decodeStep ⟨16, 100, true⟩ ([77, 83, 71, 70, 17, 0, 0, 0] ++ List.replicate 9 0) = .error := by decide
 
 /-- two segmentations of one stream, evaluated -/
-example : feedAll ⟨0, 100⟩ (some []) [[77, 83, 71], [70, 12, 0, 0, 0, 1, 0], [0, 0, 77]]
-    = feedAll ⟨0, 100⟩ (some []) [[77, 83, 71, 70, 12, 0, 0, 0, 1, 0, 0, 0, 77]] := by decide
+example : feedAll ⟨0, 100, true⟩ (some []) [[77, 83, 71], [70, 12, 0, 0, 0, 1, 0], [0, 0, 77]]
+    = feedAll ⟨0, 100, true⟩ (some []) [[77, 83, 71, 70, 12, 0, 0, 0, 1, 0, 0, 0, 77]] := by decide
 
 /-- a concrete history on a fresh buffer: one 3-byte message, encoded, drained by two partial
 writes; every hypothesis of `sendbuffer_exact`/`sendbuffer_complete` holds for it -/
